@@ -334,7 +334,8 @@ type fnAn struct {
 	facts   map[*ssa.BasicBlock][]cons
 	loadRep map[*ssa.UnOp]ssa.Value // canonical value for a load
 	reach   map[*ssa.BasicBlock]map[*ssa.BasicBlock]bool
-	inv     []cons
+	inv     []cons                      // always empty: invariants are part of blockFacts (invAt)
+	invAt   map[*ssa.BasicBlock][]cons // loop header -> inductive invariants established there
 	pre     []cons // parameter facts that hold at every call site of the module
 }
 
@@ -907,6 +908,8 @@ func (a *fnAn) blockFacts(b *ssa.BasicBlock) []cons {
 			out = append(out, a.condFacts(iff.Cond, p.Succs[0] == b)...)
 		}
 	}
+	// inductive invariants of a loop hold at its header and at everything the header dominates
+	out = append(out, a.invAt[b]...)
 	a.facts[b] = out
 	return out
 }
@@ -1082,7 +1085,25 @@ func (a *fnAn) prove(facts []cons, goal lin, depth int) bool {
 	}
 	// choose a phi atom with only acyclic edges, appearing in goal
 	var cands []atom
+	pool := map[atom]bool{}
 	for at := range goal.c {
+		pool[at] = true
+	}
+	// also merge phis that only occur in facts directly related to the goal
+	for _, f := range facts {
+		rel := false
+		for at := range f.l.c {
+			if _, has := goal.c[at]; has {
+				rel = true
+			}
+		}
+		if rel {
+			for at := range f.l.c {
+				pool[at] = true
+			}
+		}
+	}
+	for at := range pool {
 		if phi, ok := at.v.(*ssa.Phi); ok {
 			acyc := true
 			for _, p := range phi.Block().Preds {
@@ -1322,9 +1343,14 @@ func (a *fnAn) computeInvariants() {
 				}
 			}
 		}
-		for _, c := range cands {
-			a.inv = append(a.inv, ge(c))
+		if a.invAt == nil {
+			a.invAt = map[*ssa.BasicBlock][]cons{}
 		}
+		for _, c := range cands {
+			a.invAt[h.b] = append(a.invAt[h.b], ge(c))
+		}
+		// block facts computed so far did not include these invariants
+		a.facts = map[*ssa.BasicBlock][]cons{}
 	}
 }
 
@@ -1388,6 +1414,7 @@ type bSite struct {
 	ins  ssa.Instruction
 	f    *ssa.Function
 	rel  bool // some available fact shares an atom with an unproven goal (a related check exists)
+	relFacts []string // those facts, rendered with local names abstracted (sorted, unique)
 	goal string
 	pos  token.Position
 	fn   string
@@ -1407,6 +1434,7 @@ func boundsAnalyse(fn *ssa.Function, fset *token.FileSet) []bSite {
 		ok := true
 		rel := false
 		var unp []string
+		relSet := map[string]bool{}
 		for gi, g := range goals {
 			if !a.prove(facts, g, 0) && !lift(fn, facts, g, 0) {
 				ok = false
@@ -1415,11 +1443,18 @@ func boundsAnalyse(fn *ssa.Function, fset *token.FileSet) []bSite {
 					for at := range f.l.c {
 						if _, has := g.c[at]; has {
 							rel = true
+							relSet[normFact(f)] = true
+							break
 						}
 					}
 				}
 			}
 		}
+		var relFacts []string
+		for k := range relSet {
+			relFacts = append(relFacts, k)
+		}
+		sort.Strings(relFacts)
 		p := ins.Pos()
 		if p == token.NoPos {
 			if v, okv := ins.(ssa.Value); okv {
@@ -1433,7 +1468,7 @@ func boundsAnalyse(fn *ssa.Function, fset *token.FileSet) []bSite {
 				}
 			}
 		}
-		sites = append(sites, bSite{ins: ins, f: fn, rel: rel, goal: strings.Join(unp, ","), pos: fset.Position(p), fn: fn.String(), what: what, ok: ok})
+		sites = append(sites, bSite{ins: ins, f: fn, rel: rel, relFacts: relFacts, goal: strings.Join(unp, ","), pos: fset.Position(p), fn: fn.String(), what: what, ok: ok})
 	}
 	one := konst(1)
 	for _, b := range fn.Blocks {
@@ -1708,4 +1743,26 @@ func constTableFacts(at atom) []cons {
 		return nil // not every element written with a constant (zero elements would widen the range)
 	}
 	return []cons{ge(single(at2).add(konst(lo), -1)), ge(konst(hi).add(single(at2), -1))}
+}
+
+// normFact renders a constraint with its atoms described by normalised shapes, so that it can
+// be compared between the reviewed tree and a later one.
+func normFact(f cons) string {
+	var parts []string
+	for at, co := range f.l.c {
+		n := normShapeOf(at.v)
+		switch at.k {
+		case akLen:
+			n = "len(" + n + ")"
+		case akCap:
+			n = "cap(" + n + ")"
+		}
+		parts = append(parts, fmt.Sprintf("%d*%s", co, n))
+	}
+	sort.Strings(parts)
+	op := ">=0"
+	if f.neq {
+		op = "!=0"
+	}
+	return strings.Join(parts, "+") + fmt.Sprintf("%+d", f.l.k) + op
 }
